@@ -129,6 +129,13 @@ def gen_case(seed, tier, opts=None):
     if g.chance(0.03):
         faults['spawnfail'] = 'EAGAIN'
     rfrag = g.pick([None, [1], [7, 100], [4096], [64]])
+    # a silent grandchild keeps the job's descriptors open after the shell is gone: the pipes do not
+    # reach end of file when the exit is reported (own generator, so that older seeds keep their cases)
+    g2 = gen.G(seed ^ 0x6c696e67)
+    if not case_limit and g2.chance(0.2):
+        faults['linger'] = g2.pick([0.001, 0.5, 5, 120])
+    # the executor starts anywhere within a second, also late in it (elapsed-time arithmetic has to borrow)
+    t0 = t0 + g2.pick([0, 0, 0.25, 0.5, 0.9, 0.9995])
     case = {'v': 1, 'engine': 'simx', 'property': 'C13', 'seed': seed, 'start': t0, 'row': ROWS.index(row),
             'spec': spec, 'flags': flags, 'steps': steps, 'faults': faults, 'rfrag': rfrag,
             'ifile_content': 'input data\n' * g.rint(1, 5)}
@@ -377,6 +384,19 @@ def judge(case, hist, files, journal, log):
         comp = props.get('COMPLETED')
         if comp not in (ical.ts2ical(int(t_end)), ical.ts2ical(int(t_end) + 1)):
             V.append(('R-JOURNAL end-time', 'journal COMPLETED %s, job ended at %s' % (comp, ical.ts2ical(int(t_end)))))
+        # the elapsed time reported is the job's: the executor reads the clock right after the spawn and right
+        # after the exit was reported (a few loop iterations of 0.1 ms each after the exit itself)
+        rt = props.get('X-REAL-TIME')
+        if rt is not None:
+            try:
+                real = float(rt.rstrip('s'))
+            except ValueError:
+                real = None
+            if real is None or not rt.endswith('s') or abs(real - (t_end - t_sta)) > 0.5:
+                V.append(('R-JOURNAL real-time', 'journal X-REAL-TIME %s, the job ran from %.4f to %.4f (%.4f s)'
+                          % (rt, t_sta, t_end, t_end - t_sta)))
+        elif '-v' in case['flags']:
+            V.append(('R-JOURNAL real-time-missing', 'journal of a -v run lacks X-REAL-TIME'))
     return V
 
 
